@@ -45,8 +45,8 @@ def run(ctx):
     log(f"[T] {len(runs)} storage traces, {points} crash points, {n} runs accepted")
 
     # R: materialised crash images recovered by the real code
-    evc = sc.record_histories(ctx, "crash_fixed", sc.fixed_histories(), crash_images=3 if ctx.quick else 8, stride=4 if ctx.quick else 1)
-    evc += sc.record_random(ctx, "crash_rand", 6 if ctx.quick else 60, 18, ctx.seed + 7, crash_images=3 if ctx.quick else 6, stride=6 if ctx.quick else 2)
+    evc = sc.record_histories(ctx, "crash_fixed", sc.fixed_histories(), crash_images=3 if ctx.quick else 6, stride=4 if ctx.quick else 2)
+    evc += sc.record_random(ctx, "crash_rand", 5 if ctx.quick else 30, 16, ctx.seed + 7, crash_images=3 if ctx.quick else 4, stride=6 if ctx.quick else 3)
     cruns = sc.api_crash_runs(evc)
     nimg = sum(1 for r in cruns for e in r if e["ev"] == "crash_image")
     n2 = tracecheck.validate_runs(ctx, cruns, "crash", "CoreTrace", "CoreTrace.cfg", key=c02.history_key,
